@@ -30,7 +30,7 @@ pub(crate) fn create(lhs: InstructionWithStr) -> Result<Instruction, Error> {
 }
 
 pub fn can_be_used(lhs: &Type) -> bool {
-    lhs != &Type::Never && lhs.matches(&ACCEPTED_TYPE)
+    lhs.iter_element().is_some() && lhs.matches(&ACCEPTED_TYPE)
 }
 
 pub(crate) fn exec(var: Variable) -> ExecResult {
